@@ -11,6 +11,7 @@ package main
 //        jswf <case>.js <pkg>                                   \t refs=<b> present=<b>       \t ok
 //        jsvalid <case>.js <pkg> <root> <re-encoded doc>        \t valid|invalid              \t ok | FAIL encoded-value-rejected …
 //        jshyp <case>.go <case>.js <pkg> <root> <source doc>    \t valid=<b>                  \t ok
+//        jsself <case>.go <case>.js <pkg>                       \t -                          \t ok   (model-side hypotheses only)
 
 import (
 	"bufio"
@@ -307,6 +308,7 @@ func c12LabRows(out *bufio.Writer, lab *Lab, cases []*LabCase, docs map[string][
 			continue
 		}
 		fmt.Fprintf(out, "defschemas %s.go %s\tok\tok\n", c.ID, virSchemas(c.IRGo))
+		fmt.Fprintf(out, "jsself %s.go %s.js %s\t-\tok\n", c.ID, c.ID, c.ID)
 		src, srcErr := c.RefValidator("")
 		ev, evErr := newRefValidator("jsonschema", string(jsText), c.Defs.Root)
 		for _, d := range docs[c.ID] {
